@@ -242,6 +242,44 @@ def run(chk):
             chk.instance(r_sr, key, sample=dict(function=f["q"], reachable_from_entry_points=inside, argument=why))
             if not ok:
                 chk.violation(r_sr, key, "%s: %s - when the replacement contains the search string the loop never ends (%s)" % (f["q"], "; ".join(w for w in why if "not beyond" in w), "reachable from the parse entry points" if inside else "library utility"), f["file"], lp["l"])
+    # ---- C20.rawdata: the raw data vector of a deck item has whatever length the input record gave it
+    r_rd = chk.rule("C20.rawdata", "a container taken from DeckItem::getData (its length is decided by the input record) is dereferenced with front()/back()/[k] only in a function that tests its size or emptiness", floor=2)
+    for f in fx.fns:
+        if not f.get("body") or f["q"] not in closure:
+            continue
+        srcs = {}
+        for n in walk_fn(f):
+            if n["k"] == "Decl":
+                for v in n["vars"]:
+                    i = v.get("init")
+                    if i is not None and any((meth(x)[0] or "") == "getData" for x in walk(i)):
+                        srcs[v["n"]] = n["l"]
+        if not srcs:
+            continue
+        tested = set()
+        for n in walk_fn(f):
+            m, o = meth(n)
+            if m in ("empty", "size") and o is not None and strip(o)["k"] == "Ref" and strip(o)["n"] in srcs:
+                tested.add(strip(o)["n"])
+        for n in walk_fn(f):
+            m, o = meth(n)
+            use = None
+            if m in ("front", "back") and o is not None and strip(o)["k"] == "Ref" and strip(o)["n"] in srcs:
+                use = (strip(o)["n"], m + "()")
+            else:
+                b_ = i_ = None
+                if n["k"] == "Idx":
+                    b_, i_ = n["c"]
+                elif n["k"] == "OpCall" and n.get("op") == "[]" and len(n.get("a", [])) == 2:
+                    b_, i_ = n["a"]
+                if b_ is not None and strip(b_)["k"] == "Ref" and strip(b_)["n"] in srcs and strip(i_)["k"] == "Int":
+                    use = (strip(b_)["n"], "[%s]" % strip(i_)["v"])
+            if use:
+                key = "%s:%s.%s@%s" % (f["q"], use[0], use[1], show_line(f, n["l"]))
+                chk.instance(r_rd, key, sample=dict(function=f["q"], data=use[0], use=use[1], size_tested=use[0] in tested))
+                if use[0] not in tested:
+                    chk.violation(r_rd, key, "%s takes `%s` from the raw data of a deck item and calls %s on it without testing that the record supplied a value: an input record that ends early makes this undefined behaviour (crash)" % (f["q"], use[0], use[1]), f["file"], n["l"])
+
     # ---- C20.cursor: token cursors of the hand-written scanners stay inside their token vector
     from rules import c20_cursor as cc
     r_cu = chk.rule("C20.cursor", "token cursors (an index compared with V.size(), used in V[idx] and advanced by the code): every V[idx] is preceded on every path by a test that establishes idx < V.size() since the last advance; where the end is tested with equality the cursor is never advanced from a state that may already be the end", floor=40)
